@@ -9,7 +9,8 @@
 (* on the SQL the dialects emit for the pair is decided by Trace_Sql with  *)
 (* the SqlLex automaton.                                                   *)
 (***************************************************************************)
-EXTENDS Lex, Json
+EXTENDS Lex, Json, SequencesExt
+CONSTANT Deep        \* TRUE: additionally every content of length 1..2 over the hostile alphabet (thorough tier)
 VARIABLES fam, pos, ci
 
 s == Id0("s")  u == Id0("u")  one == IntL(1)
@@ -39,7 +40,7 @@ Templates(L) ==
      Cmp("eq", C1("year", s), L), Cmp("in", C1("date", s), Lst(<<L, Lit("Date", "2020-01-01")>>)) >>
 Benign == <<120>>
 Q == 39
-Contents == << <<Q>>, <<Q, Q>>, <<120, Q>>, <<Q, 32, 79, 82, 32, Q, 49, Q, 61, Q, 49>>, <<45, 45>>, <<120, Q, 45, 45>>, <<47, 42>>, <<42, 47>>,
+BaseContents == << <<Q>>, <<Q, Q>>, <<120, Q>>, <<Q, 32, 79, 82, 32, Q, 49, Q, 61, Q, 49>>, <<45, 45>>, <<120, Q, 45, 45>>, <<47, 42>>, <<42, 47>>,
                <<59>>, <<Q, 59, 68, 82, 79, 80>>, <<92>>, <<92, Q>>, <<Q, 92>>, <<0>>, <<120, 0, Q>>, <<8217>>, <<65287>>, <<65282>>, <<37>>, <<95>>,
                <<37, Q>>, <<34>>, <<10>>, <<Q, 10, 45, 45>>, <<>>, <<Q, 41>>, <<Q, 32, 124, 124, 32, Q>>, <<233, 128165>>,
                \* contents shaped like literals of other types, alone and followed by a quote and SQL
@@ -47,6 +48,9 @@ Contents == << <<Q>>, <<Q, Q>>, <<120, Q>>, <<Q, 32, 79, 82, 32, Q, 49, Q, 61, Q
                StrCps("2020-01-01T10:00:00Z") \o <<Q>>, StrCps("10:00:00") \o <<Q, 59>>, StrCps("1") \o <<Q>>, StrCps("1.5e3") \o <<Q, 45, 45>>,
                StrCps("123e4567-e89b-12d3-a456-426614174000") \o <<Q>>, StrCps("null") \o <<Q>>, StrCps("true") \o <<Q, 32, 79, 82, 32, Q, Q, 61, Q>>,
                StrCps("P1D") \o <<Q>> >>
+HostileAlphabet == {Q, 92, 37, 95, 45, 59, 47, 42, 0, 120, 34, 10, 40, 41, 124, 61, 8217}
+DeepContents == SetToSeq(({ <<c>> : c \in HostileAlphabet } \cup { <<c, d>> : c \in HostileAlphabet, d \in HostileAlphabet }) \ {Benign})
+Contents == IF Deep THEN BaseContents \o DeepContents ELSE BaseContents
 \* field-name spellings (code points): ASCII, upper case, digits, underscore, namespaced, non-ASCII word characters
 FieldNames == << <<97>>, <<65>>, <<97, 49>>, <<95, 120>>, <<110, 115, 46, 102>>, <<65, 46, 66>>, <<233>>, <<65345>>, <<97, 95, 95, 98>>,
                  <<115, 101, 108, 101, 99, 116>>, <<120, 1593>> >>
